@@ -293,6 +293,10 @@ def run(R):
     from ..cfg import ExcHierarchy
     from .c02 import batch_err
     batch_err(R, ro, "C05.ANSWERED", ExcHierarchy(R.repo))
+    # inspecting a pending batch (str/repr/dump in a flush-event handler or a debug dump) must not flush it
+    from .c18 import diag_closure, diag_purity
+    _roots, allm = diag_closure(R)
+    diag_purity(R, ro, allm, "C05.DIAG-PURE")
     # ITEM-ONCE -------------------------------------------------------------------------
     comp = bb.methods.get("_computed")
     R.need(comp is not None, "anchor vanished: BatchBase._computed")
